@@ -36,6 +36,8 @@ SpellingFailing(row, s) ==
     ELSE IF s.sheetspec # Spec4(row.parts) THEN "SpecificityStableWhenAttached"
     ELSE IF s.parts # s.parts0 THEN "SerialisationReparsesToSameSimpleSelectors"
     ELSE IF Collapse(s.parts0) # row.parts THEN "ParsedStructureAsWritten"
+    \* after an assignment that was rejected (the selector still reports the text it had) the specificity is still that text's
+    ELSE IF s.rejtext = s.ser /\ s.rejspec # Spec4(row.parts) THEN "SpecificityIsThatOfTheTextHeld"
     ELSE "ok"
 RECURSIVE FirstBad(_, _, _)
 FirstBad(row, ss, i) == IF i > Len(ss) THEN "ok"
